@@ -72,9 +72,24 @@ def new_fluid(fields: dict):
     return Fluid(**fields)
 
 
-def call_facade(method: str, ps: dict, call_args: list[str]):
-    fl = new_fluid(ps["fields"])
-    return getattr(fl, method)(*[ps["args"][a] for a in call_args])
+def call_facade(method: str, ps: dict, call_args: list[str], reuse: bool = False):
+    args = [ps["args"][a] for a in call_args]
+    if not reuse:
+        return getattr(new_fluid(ps["fields"]), method)(*args)
+    # the same (mutable dataclass) object was used before with other field values and the same call arguments: the
+    # result must reflect the object's *current* temperature, gravities, GOR and salinity
+    other = {"temperature": ps["fields"]["temperature"] * 0.8 + 31.0, "api_gravity": ps["fields"]["api_gravity"] * 0.9 + 2.0,
+             "gas_specific_gravity": ps["fields"]["gas_specific_gravity"] * 0.93 + 0.02,
+             "solution_gor_initial": ps["fields"]["solution_gor_initial"] * 0.7 + 40.0,
+             "salinity": ps["fields"]["salinity"] * 0.5 + 1.3}
+    fl = new_fluid(other)
+    try:
+        getattr(fl, method)(*args)
+    except Exception:  # noqa: BLE001  (the warm-up call is not what is judged)
+        pass
+    for k, v in ps["fields"].items():
+        setattr(fl, k, v)
+    return getattr(fl, method)(*args)
 
 
 def _resolve(src, ps: dict, pressure):
@@ -98,6 +113,11 @@ def facade_case(w: dict, ps: dict) -> dict:
     with warnings.catch_warnings():
         warnings.simplefilter("ignore")
         got = call_facade(method, ps, call_args)
+        got_reused = call_facade(method, ps, call_args, reuse=True)
+        if np.shape(got_reused) != np.shape(got) or not np.array_equal(np.asarray(got_reused, dtype=float),
+                                                                      np.asarray(got, dtype=float), equal_nan=True):
+            return {"ulps": quant.CAP, "n": 1, "got": np.asarray(got_reused, dtype=float).ravel().tolist()[:6],
+                    "ref": np.asarray(got, dtype=float).ravel().tolist()[:6], "reused_object_differs": True}
         has_p = "pressure" in call_args
         if not has_p:
             ref = call_primitive(w, ps, None)
